@@ -104,7 +104,8 @@ func (m *patternMatcher) match() {
 		case ptnCapture:
 			c := m.captures[item.bytes[0]]
 			end := m.si + c.end - c.start
-			if end <= len(m.s) && m.s[c.start:c.end] == m.s[m.si:end] {
+			// A position capture (c.end == -1) has no substring: it never matches.
+			if c.end >= c.start && end <= len(m.s) && m.s[c.start:c.end] == m.s[m.si:end] {
 				m.si = end
 				m.pi++
 			} else {
